@@ -15,7 +15,7 @@ func runCheck(P *Program, verif, prop, tier string, seed int, verbose bool, t0 t
 	var results []*FuncResult
 	var keys []string
 	verifDir = verif
-	coverReturns = tier == "thorough"
+	coverReturns = true
 	for k, c := range P.contracts {
 		if hasProp(c.Props, prop) && !c.NoVerify {
 			keys = append(keys, k)
@@ -172,6 +172,24 @@ func runCheck(P *Program, verif, prop, tier string, seed int, verbose bool, t0 t
 			fmt.Printf("UNDECIDED property=%s obligation=%s reason=not-generated\n", prop, b)
 		}
 	}
+	// vacuity guard: a return that no path reaches means a contradictory contract (or dead code); the ones known
+	// to be dead code are listed in unreachable_ok.json
+	okDead := map[string]bool{}
+	if b, err := os.ReadFile(filepath.Join(verif, "unreachable_ok.json")); err == nil {
+		var l []string
+		if json.Unmarshal(b, &l) == nil {
+			for _, n := range l {
+				okDead[n] = true
+			}
+		}
+	}
+	var newDead []string
+	for _, d := range deadReturns {
+		if !okDead[d] {
+			newDead = append(newDead, d)
+			fmt.Printf("WARNING property=%s vacuity-suspect: no path reaches %s\n", prop, d)
+		}
+	}
 	for _, e := range engineErrs {
 		fmt.Printf("ENGINE-ERROR property=%s %s\n", prop, e)
 	}
@@ -206,6 +224,7 @@ func runCheck(P *Program, verif, prop, tier string, seed int, verbose bool, t0 t
 			"cover_sat":                nCoverOK,
 			"undecided":                undecided,
 			"unreachable_returns":      deadReturns,
+			"unreachable_returns_new":  newDead,
 			"engine_errors":            engineErrs,
 			"samples":                  samples,
 		}}
